@@ -12,981 +12,793 @@ Definition show_fres (r : fres) : string :=
   end.
 Definition check (rs : list rune) : string := digest (show_fres (format_res rs)).
 Definition full (rs : list rune) : string := show_fres (format_res rs).
-Eval vm_compute in ("<<<M165>>>" ++ check (runes_of_ascii "packet falsey { char[7
-    ]
-Foo @calculatedFrom( ""CRC32"" ) , @tag(
-    //
-    10)	u8 Packet`" ++ [233]%N ++ runes_of_ascii "` ,repeat  stringy
-,
-@lengthOf( // a // b
-float)tag { repeat
-    u8x {
-int16 charz@lengthOf(trueish ) , //	t
-repeat  string calculatedFrom,
-charz @calculatedFrom(  ""a\""b""
-)	`line1
-line2`
-,
-},u64
-    MetaDataX @calculatedFrom( """ ++ [128512]%N ++ runes_of_ascii """
-    ) `" ++ [233]%N ++ runes_of_ascii "`
-    ,rootA
-    // packet A { u8 x, }
-    {
-    repeat	u64 BodyLength
-`" ++ [233]%N ++ runes_of_ascii "` , pack @calculatedFrom( //x
-""{,}"" )
-    `" ++ [28040; 24687; 31867; 22411]%N ++ runes_of_ascii "` ,repeat // c
-x charz,
-},
-    // a // b
-    char[] packetx, }	, // `tick` ""quote"" 'q'
-calculatedFrom , u x_y_z
-,repeat	int	i64_ ,@leftPad (
-    ' '
-)u32 T @calculatedFrom( ""{,}"" )
-, repeat
-    metadata , } root packet
-chars
-{ char[	65535
-]  pack @lengthOf( As ) `tab	here` , char[
-255] msg_type `// not a comment`
-    ,@calculatedFrom(
-    ""// no comment"" ) @tag( //	t
-0 ) @tag(10 ) repeat Header {
-    char[]
-// @lengthOf(
-// " ++ [27880; 37322]%N ++ runes_of_ascii "
-i64_,repeat T//x
-`` ,match uint8x	as i64_ {
-00// `tick` ""quote"" 'q'
-: _x ,	65535: //
-Z9_,
-""1""
-: u8x ,
-007 : Z9_
-, 255
-:
-matchKey
-""1"" :
-crc , } , } ,
-    @calculatedFrom(	""packet""	) match int as x_y_z{ 0123456789 :	Logon
-    // @lengthOf(
-    ,
-    //	t
-    [ 0123456789, ""it's"" ]
-:
-int
-    , [""a	b"" , ""CRC32"" , 0, 4294967296 , """"	] :
-pack , 0 : u , } , match // @lengthOf(
-string_ as
-int
-{ 0: repeatCount [ ""abc""
-    ] : // " ++ [27880; 37322]%N ++ runes_of_ascii "
-float 007: msg_type , [
-    ""a\""b""	]:
-charz , } , i16 MetaDataX`say ""hi""`, repeat u `tab	here` , repeat falsey  { repeat i8 lengthOf `a\` ,
-    repeatCount@lengthOf( o)
-    `{ , }`,}, }packet rootA
-    { calculatedFrom//	t
-@calculatedFrom( ""x y"") ,
-char Pad @calculatedFrom( ""a\""b"" ) `" ++ [233]%N ++ runes_of_ascii "`
-    , @leftPad
-( '\x00' )	repeat float64 tag ,
-    // " ++ [27880; 37322]%N ++ runes_of_ascii "
-    @calculatedFrom( ""1"") repeat Foo ,  } // " ++ [27880; 37322]%N)).
-Eval vm_compute in ("<<<M1330>>>" ++ check (runes_of_ascii "// top
-packet // c0a
-  // c0b
-Frame // c1a
-  // c1b
-{ // c2a
-  // c2b
-u8 // c3
-HK // c4
-,
-    // c5
-u8
-    // c6
-BK // c7
-, // c8a
-  // c8b
-u8 // c9
-TK // c10
-, // c11a
-  // c11b
-match // c12
-HK as Hdr // c15a
-  // c15b
-{ // c16
-1
-    // c17
-:
-    // c18
-HdrA , 2 // c21
-:
-    // c22
-HdrB // c23
-, // c24a
-  // c24b
-} ,
-    // c26
-match
-    // c27
-BK as
-    // c29
-Body // c30
-{
-    // c31
-1 : // c33a
-  // c33b
-BodyA // c34
-,
-    // c35
-2 :
-    // c37
-BodyB , } // c40a
-  // c40b
-, // c41
-match // c42
-TK
-    // c43
-as // c44
-Trl // c45a
-  // c45b
-{ // c46a
-  // c46b
-1
-    // c47
-: // c48
-TrlA , // c50a
-  // c50b
-} // c51a
-  // c51b
-, // c52a
-  // c52b
-} // c53a
-  // c53b
-packet HdrA // c55
-{ u8 // c57
-a // c58a
-  // c58b
-, // c59
-} // c60
-packet // c61a
-  // c61b
-HdrB
-    // c62
-{ // c63a
-  // c63b
-u16
-    // c64
-b // c65
-, // c66
-} // c67
-packet // c68
-BodyA { // c70a
-  // c70b
-u32
-    // c71
-c // c72
-, } // c74
-packet
-    // c75
-BodyB {
-    // c77
-u64 // c78a
-  // c78b
-d // c79
-, // c80a
-  // c80b
-} // c81a
-  // c81b
-packet TrlA // c83a
-  // c83b
-{
-    // c84
-u8 e // c86
-,
-    // c87
-} // c88a
-  // c88b
-root // c89a
-  // c89b
-packet
-    // c90
-Msg
-    // c91
-{ Frame , // c94a
-  // c94b
-u8 // c95a
-  // c95b
-x // c96a
-  // c96b
-, // c97a
-  // c97b
-}
-    // c98
-")).
-Eval vm_compute in ("<<<M1881>>>" ++ check (runes_of_ascii "root
-    packet u 
-{ 
-match  //x
-
-  T
-
-as body	// c
-  {	[
-""a\""b"", 3
-
-    ]
-:
-
-    stringy ""a	b""
-	:
-	charz // a // b
-, 10	:
-
-    lengthOf 	 // " ++ [128512]%N ++ runes_of_ascii " emoji
-  	, 
-""CRC32""
-:	falsey
-,0123456789
-	:	_x ,
-
-    }
-
-,
-	body
-    @lengthOf( i64_ ) ,
-
-    u64
-	chars
-`u8 x,`  , T
-
-{  i64_
-
-    string_
-    , 
-u32
-    metadata
-
-,
-zchar[
-
-    1
-	] Z9_	, }
-
-    // c
-,
-
-    @calculatedFrom(
-""a\\"" 
-)
-rootA 	 // " ++ [128512]%N ++ runes_of_ascii " emoji
-	x_y_z	`u8 x,`
-
-,
-
-    zchar[ 007 ] body @calculatedFrom(
-
-    ""\n""
-)
-,
-@leftPad
-	(
-    '0' )
-@rightPad('0'
-    )	@calculatedFrom(
-""" ++ [233]%N ++ runes_of_ascii "t" ++ [233]%N ++ runes_of_ascii """ )repeat
-uint64 
-A ,
-repeat u8x	{
-match o
-as
-
-x
-
-    {10  :
-
-charz 
-
-// " ++ [27880; 37322]%N ++ runes_of_ascii "
-	// " ++ [27880; 37322]%N ++ runes_of_ascii "
-  ,
-
-""a	b"":matchKey
-
-    , ""x y""
-:trueish
-,
-
-    [
-""" ++ [233]%N ++ runes_of_ascii "t" ++ [233]%N ++ runes_of_ascii """
-
-]:
-
-    zchar
-	,
-""1""
-
-:  charz	// " ++ [27880; 37322]%N ++ runes_of_ascii "
-
-, 
-[	""a\""b""
-, ""abc""	,""a\\""
-,  ""abc"",
-    // packet A { u8 x, }
-  // " ++ [128512]%N ++ runes_of_ascii " emoji
-"""" 
-
-// packet A { u8 x, }
-  /// triple
-  ]
-    : u8x, }
-
-, }	,repeat falsey
-{
-	rootA
-
-tag 
-, zchar[  /// triple
-  0
-    ]  falsey
-,} ,
-charz  a1
-
-    `{ , }`
-
-, }
-root
-
-packet/// triple
-		Header	{}
-")).
-Eval vm_compute in ("<<<M13>>>" ++ check (runes_of_ascii "root
-    packet	roots{ // `tick` ""quote"" 'q'
-} options	{	asx =
-    ""\n"" ; x_y_z =
-3 ;rootA = ""CRC32""
-    ;float=char  T = false
-; }
-packet falsey {
-body { match u8x as /// triple
-string_{ [
-42,7 ,65535
-    ,
-    3 ,
-    42 ,7 , ""1""
-    , ""packet"" ]:
-    // `tick` ""quote"" 'q'
-    i64_ , [ ""abc""]
-    :  Foo ,	""a\\""
-    :
-roots ,
-    4294967296 :	stringy	}
-    , //x
-asx
-`{ , }` // " ++ [128512]%N ++ runes_of_ascii " emoji
-, i8
-charz@lengthOf( // trailing space 
-x_y_z)// trailing space 
-`a\` ,}
-    // @lengthOf(
-    , @tag( 65535 ) i64_ @lengthOf( tag )`u8 x,`
-// a // b
-//	t
-,Z9_@lengthOf( int )
-, @calculatedFrom( ""a\""b""
-)uint16  stringy @lengthOf( trueish ) , Logon	{string  Logon `say ""hi""` , packetx
-i64_ , match msg_type as	float
-{ ""\n"" : i64_,	[
-""" ++ [128512]%N ++ runes_of_ascii """
-    ]
-:
-metadata , // `tick` ""quote"" 'q'
-[
-// trailing space 
-// " ++ [128512]%N ++ runes_of_ascii " emoji
-10, ""1""  ]
-:zchar ,
-}
-    , //x
-}
-    //x
-    , Packet
-    @calculatedFrom(""CRC32"" ), }
-")).
-Eval vm_compute in ("<<<M298>>>" ++ check (runes_of_ascii "
-options  { } options
-    {  uint8x =
-// @lengthOf(
-// " ++ [27880; 37322]%N ++ runes_of_ascii "
-42 uint8x = /// triple
-""abc"" ; //x
-_x='0'
-    }
-    packet u8x
-    { zchar[ 1 ] As
-`crlf
-line`, match metadata as float  { ""packet"" ://
-trueish , } , repeat
-rootA
-, repeat metadata repeatCount// trailing space 
-, @rightPad( // `tick` ""quote"" 'q'
-'0') i64 body `// not a comment`
-, @tag( 1) string string_
-    `line1
-line2` ,
-uint8 u8x`" ++ [28040; 24687; 31867; 22411]%N ++ runes_of_ascii "` ,
-packetx u128,	u tag , repeat Logon zchar
-`` ,  }packet zchar
-{
-    }	packet	MetaDataX { @lengthOf(
-Packet ) repeatCount  int
-`doc` , @tag(
-7 ) packetx @calculatedFrom( ""a\""b""// c
-) , match msg_type as x { ""\n"" : calculatedFrom }, //x
-@leftPad (// packet A { u8 x, }
-'\x00')@lengthOf( MetaDataX // c
-)
-    // a // b
-    char[007
-] a1`tab	here`, As
-    @calculatedFrom( ""`tick`"") `// not a comment`,} 	 ")).
-Eval vm_compute in ("<<<M354>>>" ++ check (runes_of_ascii "options {
-} packet u8x{ string uint8x@calculatedFrom(""{,}"" )	`crlf
-line`	,} MetaData falsey{
-    Logon packetx `tab	here` , } root packet o
-{ falsey@calculatedFrom(
-//x
-// " ++ [27880; 37322]%N ++ runes_of_ascii "
-""" ++ [28040; 24687]%N ++ runes_of_ascii """ ) ,	@tag(0123456789) // `tick` ""quote"" 'q'
-char[
-    // `tick` ""quote"" 'q'
-    0123456789
-]	u128@calculatedFrom(
-""{,}"" ) ,
-    @tag(
-    00)
-@lengthOf( stringy
-) @tag( 4294967296
-)  rootA Header,  @lengthOf(As
-    )
-    repeat leftPad `// not a comment`// c
-, i8 leftPad @calculatedFrom( """" ) , @tag( 10
-) zchar[ 007
-] packetx
-@lengthOf( // packet A { u8 x, }
-u8x )	`" ++ [28040; 24687; 31867; 22411]%N ++ runes_of_ascii "` ,
-}packet	options1 {
-//	t
-// trailing space 
-falsey// packet A { u8 x, }
-{ //	t
-zchar[ 3
-    ]// " ++ [128512]%N ++ runes_of_ascii " emoji
-roots
-//
-// a // b
-,
-    u32 Header // c
-,
-} ,// a // b
-}")).
-Eval vm_compute in ("<<<M1122>>>" ++ check (runes_of_ascii "// top
-options // c0
-{ // c1
-uint8x // c2
-= // c3
-007 // c4
-; // c5
-lengthOf // c6
-= // c7
-i8 // c8
-; // c9
-} // c10
-packet // c11
-i64_ // c12
-{ // c13
-@calculatedFrom( // c14
-""1"" // c15
-) // c16
-@tag( // c17
-3 // c18
-) // c19
-@lengthOf( // c20
-rootA // c21
-) // c22
-repeat // c23
-int8 // c24
-Packet // c25
-`u8 x,` // c26
-, // c27
-} // c28
-root // c29
-packet // c30
-stringy // c31
-{ // c32
-@rightPad // c33
-( // c34
-' ' // c35
-) // c36
-repeat // c37
-char[ // c38
-10 // c39
-] // c40
-repeatCount // c41
-, // c42
-@tag( // c43
-255 // c44
-) // c45
-float64 // c46
-msg_type // c47
-@calculatedFrom( // c48
-""packet"" // c49
-) // c50
-, // c51
-} // c52
-")).
-Eval vm_compute in ("<<<M1294>>>" ++ check (runes_of_ascii "// top
-packet // c0a
-  // c0b
-A // c1
-{
-    // c2
-u8
-    // c3
-a // c4a
-  // c4b
-, } // c6a
-  // c6b
-packet // c7a
-  // c7b
-B // c8a
-  // c8b
-{ u16 // c10
-b // c11a
-  // c11b
-,
-    // c12
-}
-    // c13
-root // c14
-packet P // c16
-{ // c17a
-  // c17b
-u8 K1 // c19
-, // c20
-u8 // c21a
-  // c21b
-K2 // c22a
-  // c22b
-, // c23a
-  // c23b
-match // c24a
-  // c24b
-K1 as
-    // c26
-M1 // c27a
-  // c27b
-{ // c28a
-  // c28b
-1
-    // c29
-:
-    // c30
-A // c31
-, // c32a
-  // c32b
-} , match K2
-    // c36
-as
-    // c37
-M2 // c38
-{ 1 : // c41a
-  // c41b
-B
-    // c42
-, } ,
-    // c45
-} // c46
-")).
-Eval vm_compute in ("<<<M1300>>>" ++ check (runes_of_ascii "// top
-packet // c0
-A { u8
-    // c3
-a , // c5a
-  // c5b
-} // c6
-packet
-    // c7
-B { // c9a
-  // c9b
-u16 // c10a
-  // c10b
-b // c11
-, // c12
-}
-    // c13
-root packet // c15a
-  // c15b
-P { // c17
-u8 // c18
-K // c19
-, // c20
-match // c21
-K // c22
-as // c23
-M // c24a
-  // c24b
-{
-    // c25
-[ // c26
-1
-    // c27
-,
-    // c28
-2 // c29a
-  // c29b
-] // c30a
-  // c30b
-: // c31a
-  // c31b
-A // c32a
-  // c32b
-, 3
-    // c34
-: // c35
-B // c36a
-  // c36b
-, 7 // c38
-: // c39a
-  // c39b
-A // c40
-, // c41
-} ,
-    // c43
-}
-    // c44
-")).
-Eval vm_compute in ("<<<M1764>>>" ++ check (runes_of_ascii "// top
-options {
-    // c1
-    uint8x = 007;
-    lengthOf = i8;// c9a
-    // c9b
-}
-
-packet i64_ {
-    // c13
+Eval vm_compute in ("<<<M1569>>>" ++ check (runes_of_ascii "packet metadata {
+    repeat f64 Foo,
+    repeat Logon f32a `
+    `,
     @calculatedFrom(""1"")
-    // c16
-    @tag(3)
-    // c19
-    @lengthOf(rootA)
-    // c22
-    repeat int8 Packet `u8 x,`,// c27
-}// c28a
-
-// c28b
-root packet stringy {
-    // c32a
-    // c32b
+    repeat uint8 calculatedFrom `u8 x,`,
+    char[] packetx,// packet A { u8 x, }
+    @calculatedFrom(""abc"")
+    Pad @lengthOf(msg_type) `line1
+    line2`,
     @rightPad(' ')
-    // c36
-    repeat char[10] repeatCount,// c42
-    @tag(255)
-    // c45
-    float64 msg_type @calculatedFrom(""packet""),// c51a
-    // c51b
-}// c52")).
-Eval vm_compute in ("<<<M14>>>" ++ check (runes_of_ascii "MetaData u128
-    {// a // b
-string zchar //x
-`two words` ,u16 packetx
-`a\` , char[ 1 ] Logon	, len crc, char[
-7]i8i8,char[]calculatedFrom,
-} // @lengthOf(
-MetaData u
-    { u// " ++ [128512]%N ++ runes_of_ascii " emoji
-u128
-, //	t
-}root packet metadata { }options	{ matchKey =
-    255
-;
-x_y_z
-= 007 crc=int16
-; zchar =// c
-char[42 ]
-; int
-= true ;
-} options  {
-Header = """ ++ [128512]%N ++ runes_of_ascii """
-;
-len
-    = ' ' ; matchKey= """" ;MetaDataX =' '
-; o
-    = '\x00' ; }
-/// triple
-")).
-Eval vm_compute in ("<<<M303>>>" ++ check (runes_of_ascii "  packet
-    tag{ } packet
-    //
-    packetx { @calculatedFrom( ""x y""
-    )@tag(
-    42 )
-@lengthOf(
-    As  ) char a1`two words` ,
-    @leftPad
-(
-    '\x00' )
+    tag `" ++ [233]%N ++ runes_of_ascii "`,
     @tag(10)
-@lengthOf( u)
-    char[] falsey // " ++ [128512]%N ++ runes_of_ascii " emoji
-,
-    // " ++ [27880; 37322]%N ++ runes_of_ascii "
-    }//
-MetaData
-f32a {
-    string u128 , roots
-    stringy , Header body,
-    float options1
-    //	t
-    `it's`
-    ,	i8i8 options1
-`" ++ [28040; 24687; 31867; 22411]%N ++ runes_of_ascii "`
-    ,
+    u8x @calculatedFrom(""CRC32""),
+    match metadata as msg_type {
+        [""\n"", 0123456789] : options1,
+        ""\n"" : float,
+    },
+}
+
+packet MetaDataX {
+    string string_ `doc`,
+    @rightPad('0')
+    zchar[00] zchar `a\`,
+}
+
+options {
+    leftPad = 0
+    float = 4294967296;
+}// `tick` ""quote"" 'q'
+
+root packet body {
+    @calculatedFrom(""1"")
+    @lengthOf(int)
+    match float as Z9_ {
+        // packet A { u8 x, }
+        // trailing space 
+        42 : x,
+        ""packet"" : matchKey,
+        """ ++ [28040; 24687]%N ++ runes_of_ascii """ : o,
+        255 : float,
+    },
+    @tag(0123456789)
+    match calculatedFrom as trueish {
+        [""packet"", ""`tick`"", """ ++ [233]%N ++ runes_of_ascii "t" ++ [233]%N ++ runes_of_ascii """] : MetaDataX,
+        4294967296 : trueish,
+        3 : i64_,
+        0123456789 : f32a,
+        [
+            7, 10, ""CRC32"", ""x y"", ""\n"",
+            ""CRC32"", ""`tick`""
+        ] : body,
+    },
+    char[1] Foo,
+    @rightPad(' ')
+    @calculatedFrom(""a	b"")
+    repeat string_ {
+        repeat Logon,
+        Z9_ i8i8,
+        match Z9_ as A {
+            [42] : Logon,
+            [
+                ""CRC32"", 1, ""a\""b"", 4294967296, 0,
+                ""\" ++ [233]%N ++ runes_of_ascii """
+            ] : roots,
+            ""a\""b"" : MetaDataX,
+            255 : _x,
+            65535 : rootA,
+        },
+        match _x as Foo {
+            [255, """ ++ [28040; 24687]%N ++ runes_of_ascii """, ""CRC32"", """ ++ [233]%N ++ runes_of_ascii "t" ++ [233]%N ++ runes_of_ascii """, ""abc""] : len,
+            ""a\\"" : Pad,
+            0 : falsey,
+            3 : u128,
+        },// a // b
+    },
+    repeat options1 int `{ , }`,
 }")).
-Eval vm_compute in ("<<<M1927>>>" ++ check (runes_of_ascii "
-packet	A
-{u8
+Eval vm_compute in ("<<<M1918>>>" ++ check (runes_of_ascii "options {
+    BodyLength = 3;// " ++ [128512]%N ++ runes_of_ascii " emoji
+    T = ""packet"";
+    // c
+    // trailing space 
+    crc = true;
+    falsey = '\x00';
+}
 
-    a ,
-    }packet
-B
+root packet A {
+    @leftPad('0')
+    char[65535] Header `" ++ [233]%N ++ runes_of_ascii "`,
+    @rightPad('0')
+    //
+    a1 @lengthOf(msg_type),
+    @lengthOf(rootA)
+    match _x as stringy {
+        ""CRC32"" : chars,
+        3 : float,
+        255 : asx,
+        10 : tag,
+        //
+    },
+    @calculatedFrom(""" ++ [128512]%N ++ runes_of_ascii """)
+    u32 u8x `crlf
+    line`,
+    repeat char[] asx `a\`,
+    @rightPad('0')
+    match f32a as Packet {
+        [
+            255, ""CRC32"", 007, ""1"", ""packet"",
+            00, 4294967296
+        ] : calculatedFrom,
+        ""packet"" : falsey,
+        ""a\""b"" : body,
+        7 : Packet,
+        // " ++ [128512]%N ++ runes_of_ascii " emoji
+        0123456789 : i64_,
+        // a // b
+        [4294967296, 0123456789] : options1,
+    },
+    crc @lengthOf(Foo),
+    @calculatedFrom(""{,}"")
+    @lengthOf(metadata)
+    @lengthOf(i8i8)
+    int64 options1 @calculatedFrom(""CRC32"") `line1
+    line2`,// @lengthOf(
+}
 
-    { u16
+packet a1 {
+    match lengthOf as x_y_z {
+        ""it's"" : matchKey,
+        10 : Packet,
+        [""abc""] : A,
+        10 : metadata,
+    },
+}
 
-b,
-
+MetaData body {
+    char string_,
+    char[] x,
+    len Pad,
+    string leftPad,
+}// trailing space ")).
+Eval vm_compute in ("<<<M1343>>>" ++ check (runes_of_ascii "options
+{
+    FixedStringPadFromLeft= true;FixedStringPadChar
+=
+    '0'  ;
 }
     packet
-    C  {
 
-u32 c ,
-    }
-root	packet
+Leg{ InPrice0{
+	repeat
+string
 
-M { u16
-    Kc
-,u16 
-Kb , u16 Ka ,
+    clOrdID ,
+    int16
+	msgKind ,
+zchar[5
+]
 
-    match	Kc
-as
-
-    X { 9  : 
-A
-
+    Px,
+} 
 ,
+i16  f1
+
+, repeat
+
+    f64  Side2
+,string
+	Acct,
+
+}
+    packet  Cancel {
+
+zchar[
+
+4
+
+]
+clOrdID,	string 
+seqNo  ,
+
+    Leg , 
+@leftPad
+    (
+    '0' 
+)  char[
+    11
+    ]
+    OrderId	, 
+} 
+packet
+Quote{
+    repeat
+    char[4]
+
+    sym,
+	f64 
+OrderId ,
+    repeat
+
+    Leg
+
+    ,
+
+repeat i64 
+f1, int16 
+Note ,  zchar[
+3] 
+count  ,  } 
+root
+packet
+Ack{	@leftPad(
+    ' ' 
+)char[
 
     10
-: 
-B
+]sym,
+    InPx60
+	{
+Cancel	,
+repeat
+char[
+1
+    ]  f1 ,
+
+string
+	Tail
+
+    , repeat 
+InNote55 {
+int8
+
+count, f64 f1 ,
+    repeat
+	Cancel,	} ,char[]tag7	,  repeat
+	string	msgKind
+
+    , }
+
+    ,
+
+    u8
+lastPx
 	,
+	match lastPx
+as  Body
+	{152 :Quote ,
+    173
 
-    }
-,  match 
-Kb
+:  Cancel
+    , 4
+: 
+Leg ,
 
-    as Y  {
-2 :  C 
-,
-
-1 :A,}
-    , 
-match
-    Ka 
-as
-    Z {
-	1
-
-    :
-
-    B	,
 }
 
-,  A,
-B	,
+,u16 Ref @calculatedFrom(
+    ""CRC32""
+)
+	,
+	}
+")).
+Eval vm_compute in ("<<<M237>>>" ++ check (runes_of_ascii "root
+    packet
+    asx { // `tick` ""quote"" 'q'
+f32a	,
+@calculatedFrom(
+""abc"") zchar[ 65535 ]	metadata `
+` , @calculatedFrom(// " ++ [128512]%N ++ runes_of_ascii " emoji
+""CRC32"" // `tick` ""quote"" 'q'
+) Header `doc`
+    // @lengthOf(
+    , match
+f32a as
+msg_type
+// @lengthOf(
+//x
+{ [ ""\n"" ] /// triple
+:
+charz// @lengthOf(
+0123456789 :
+pack
+    // `tick` ""quote"" 'q'
+    ,//x
+[ ""packet"" , """",
+    // @lengthOf(
+    ""`tick`"" ,
+    ""CRC32"" , ""\n"" ,
+// `tick` ""quote"" 'q'
+// trailing space 
+""it's""//	t
+,
+""it's"", //
+4294967296 ]
+:
+charz
+42
+    : leftPad , [
+255 ,	7 , ""packet"" , // trailing space 
+""{,}""
+    , ""\" ++ [233]%N ++ runes_of_ascii """ ,""1""
+    ,	""1""  ] : msg_type
+,
+    [ """ ++ [128512]%N ++ runes_of_ascii """
+    ]:  i64_ } ,  }packet body { } root packet i64_
+    { uint16  Header @calculatedFrom(
+""" ++ [233]%N ++ runes_of_ascii "t" ++ [233]%N ++ runes_of_ascii """ )
+    ``
+    ,float64 string_@calculatedFrom( // a // b
+""`tick`"") , repeat zchar[ // @lengthOf(
+1] packetx`it's` ,
+} //	t")).
+Eval vm_compute in ("<<<M1853>>>" ++ check (runes_of_ascii "MetaData x {
+    len crc,
+    float asx,
+    i32 uint8x `line1
+        line2`,
+    u16 tag `it's`,
+    As string_,
+}
 
-C
+packet metadata {
+    @lengthOf(zchar)
+    // c
+    i64_ @calculatedFrom(""\" ++ [233]%N ++ runes_of_ascii """),//x
+    @leftPad('\x00')
+    zchar[10] zchar,
+    lengthOf string_,
+    int @lengthOf(pack),
+    zchar[00] Foo,
+    @lengthOf(packetx)
+    @leftPad('\x00')
+    @calculatedFrom(""x y"")
+    uint16 len @calculatedFrom("""") `two words`,
+    int8 metadata @lengthOf(Foo) `two words`,// @lengthOf(
+}
+
+options {
+}
+
+packet pack {
+    // `tick` ""quote"" 'q'
+    //
+    f64 o,
+    T BodyLength,
+    repeat uint8 chars `" ++ [233]%N ++ runes_of_ascii "`,
+    repeat Logon u,
+    @tag(0123456789)
+    char[] repeatCount @lengthOf(_x) `
+        `,//
+    @tag(7)
+    repeatCount @calculatedFrom(""packet"") `{ , }`,
+}")).
+Eval vm_compute in ("<<<M344>>>" ++ check (runes_of_ascii "options // a // b
+{	}
+    packet i8i8 { @tag(
+3 ) x
+@calculatedFrom(
+""it's""	) , @lengthOf( f32a ) match
+rootA
+as uint8x // @lengthOf(
+{ 0 : string_ 42 : Packet } , @leftPad
+(
+    '\x00'
+) i64_ packetx `u8 x,` ,
+    @calculatedFrom(""x y"" ) matchKey {len  ,
+    }  ,
+@lengthOf(  matchKey
+)
+    @calculatedFrom(// `tick` ""quote"" 'q'
+""abc"" ) @lengthOf( x_y_z )
+    /// triple
+    repeat metadata `line1
+line2` ,lengthOf repeatCount , /// triple
+int32
+// " ++ [27880; 37322]%N ++ runes_of_ascii "
+//	t
+roots @calculatedFrom( ""`tick`"")
+`" ++ [233]%N ++ runes_of_ascii "` , zchar[
+1	]	Packet	@calculatedFrom(	""// no comment"" ) ,} packet
+    options1
+{ @lengthOf(
+    uint8x ) A @calculatedFrom( ""it's""
+    )
+`doc`, } root packet crc
+{char[	65535	]chars
+,}
+")).
+Eval vm_compute in ("<<<M1386>>>" ++ check (runes_of_ascii "// top
+packet
+    // c0
+Sub // c1
+{ // c2
+u8 // c3
+a , // c5a
+  // c5b
+@calculatedFrom( ""CRC16"" )
+    // c8
+i32 // c9a
+  // c9b
+SubSum ,
+    // c11
+} // c12a
+  // c12b
+root
+    // c13
+packet Frame
+    // c15
+{ u16 MsgType // c18
+,
+    // c19
+u16 // c20
+BodyLen
+    // c21
+@lengthOf( // c22a
+  // c22b
+Body // c23a
+  // c23b
+) // c24a
+  // c24b
+,
+    // c25
+Sub // c26a
+  // c26b
+Body
+    // c27
+, // c28a
+  // c28b
+string
+    // c29
+note
+    // c30
+, @calculatedFrom( // c32a
+  // c32b
+""CRC16"" // c33a
+  // c33b
+) // c34a
+  // c34b
+i32 Checksum // c36a
+  // c36b
+,
+    // c37
+u8 // c38
+tail
+    // c39
+, // c40
+} // c41
+")).
+Eval vm_compute in ("<<<M1700>>>" ++ check (runes_of_ascii "options {
+    LittleEndian = false;
+    ArrayPrefixLenType = u8;
+    FixedStringPadFromLeft = true;
+    FixedStringPadChar = '0';
+}
+
+packet Heartbeat {
+    string lastPx,
+    uint8 Qty,
+    i64 Acct,
+    char[4] Ref,
+}
+
+packet Fill {
+    uint8 Ref,
+    Heartbeat,
+    f32 OrderId,
+    repeat f32 x,
+}
+
+root packet Order {
+    zchar[2] OrderId,
+    zchar[2] Acct,
+    zchar[1] Note,
+    zchar[9] Qty,
+    string price,
+    string tag7,
+    u32 x,
+    match x as Body {
+        123 : Fill,
+        112 : Heartbeat,
+    },
+    u32 seqNo @calculatedFrom(""CRC32""),
+}")).
+Eval vm_compute in ("<<<M210>>>" ++ check (runes_of_ascii "MetaData tag {
+//
+//
+char[// a // b
+3 ] // a // b
+msg_type
+    // c
+    , char[7 ] options1
+,
+    // trailing space 
+    float crc
+,calculatedFrom pack ,int64 u  `a\`,}
+packet leftPad{char[
+    1
+]
+    /// triple
+    zchar
+,
+    //
+    } packet crc { // c
+@lengthOf( packetx	) @lengthOf( asx)
+@lengthOf( packetx ) calculatedFrom {	f32 packetx	``
+// packet A { u8 x, }
+//x
+, },
+} options { Z9_
+= ""\" ++ [233]%N ++ runes_of_ascii """
+    // a // b
+    float = ' ' ; packetx = ""x y""
+    calculatedFrom  = int16
+    ;
+}")).
+Eval vm_compute in ("<<<M1929>>>" ++ check (runes_of_ascii "options {
+    LittleEndian = true;
+    StringPrefixLenType = u64;
+    ArrayPrefixLenType = u16;
+    FixedStringPadFromLeft = false;
+    FixedStringPadChar = ' ';
+}
+
+packet Logon {
+    zchar[5] Side2,
+}
+
+root packet Logout {
+    repeat i64 Tail,
+    Logon,
+    repeat i16 OrderId,
+    char[] venue,
+    uint64 x,
+    repeat i16 count,
+    u8 Flags,
+    match Flags as Body {
+        25 : Logon,
+    },
+    u16 Qty @calculatedFrom(""CR\
+        C32""),
+}")).
+Eval vm_compute in ("<<<M1690>>>" ++ check (runes_of_ascii "MetaData Packet {
+    // c2
+}
+
+packet charz {
+    // c6a
+    // c6b
+    Foo asx `it's`,
+    // c10
+    @lengthOf(T)
+    // c13
+    @calculatedFrom("""")
+    // c16
+    @calculatedFrom(""x y"")
+    // c19a
+    // c19b
+    zchar[007] repeatCount @lengthOf(int) `a\`,// c28a
+    // c28b
+    i8 string_,// c31
+    repeat options1 Pad,
+}// c36a
+
+// c36b
+root packet Packet {
+    int8 float `doc`,// c44
+}
+// c45")).
+Eval vm_compute in ("<<<M372>>>" ++ check (runes_of_ascii "// @lengthOf(
+MetaData leftPad { string	options1`say ""hi""` ,
+    //x
+    int16 metadata`" ++ [233]%N ++ runes_of_ascii "`,f32 i64_
+//	t
+// c
+, }  packet
+trueish { // c
+MetaDataX roots ,_x
+    a1 , match
+packetx as charz { 0
+: // c
+f32a ,
+} //
+, repeat body Logon , }	options { repeatCount=
+    int8
+charz // `tick` ""quote"" 'q'
+=	char[];  msg_type =""it's""	u
+=
+    007 Z9_
+    = uint32
+    //
+    }")).
+Eval vm_compute in ("<<<M127>>>" ++ check (runes_of_ascii "packet a1{ @leftPad ( ) float
+@lengthOf(
+uint8x ) , }
+packet Logon {
+char Logon
+@calculatedFrom( ""a\\"" )
+    ,T stringy ,
+//
+// c
+repeat uint8 stringy `two words` , } MetaData charz{ u
+    tag
+    `
+`
+, a1 falsey ,//x
+Z9_
+matchKey , f64 lengthOf	`a\` // @lengthOf(
+,
+    f32a roots
+    ``
+,float64
+    x_y_z // @lengthOf(
 , }
 ")).
-Eval vm_compute in ("<<<M1376>>>" ++ check (runes_of_ascii "options {
-    LittleEndian = true;
+Eval vm_compute in ("<<<M1268>>>" ++ check (runes_of_ascii "// top
+packet
+    // c0
+B
+    // c1
+{ // c2
+u8
+    // c3
+a // c4
+, string // c6
+s
+    // c7
+, } root // c10
+packet
+    // c11
+P // c12a
+  // c12b
+{
+    // c13
+u16
+    // c14
+L // c15a
+  // c15b
+@lengthOf( B
+    // c17
+)
+    // c18
+,
+    // c19
+B
+    // c20
+, u8 // c22a
+  // c22b
+t
+    // c23
+, // c24
+} ")).
+Eval vm_compute in ("<<<M1960>>>" ++ check (runes_of_ascii "packet MDSnapshotZZ {
+u8
+
+a	, }  packet
+
+OrderACK
+	{ u16 b ,
+
+    }
+
+packet	HTTPServerInfo
+{ string  s
+    , 
 }
-packet Logon {
-    u8 x,
+
+    root
+	packet  FIXMsg {u8
+
+    KType
+,
+	MDSnapshotZZ  ,
+
+repeat OrderACK
+,match	KType
+as
+    Body
+    {	1 : HTTPServerInfo 
+,
+2:	OrderACK,}	, }
+")).
+Eval vm_compute in ("<<<M97>>>" ++ check (runes_of_ascii "packet
+i8i8 { repeat char[	00 ] Pad
+    `a\` ,
+@leftPad
+    (
+'\x00') string	a1@lengthOf(tag )``, float64
+    u128 @calculatedFrom( ""1""
+)  ,	@lengthOf( x
+    )
+    u128 @lengthOf( tag )
+`" ++ [28040; 24687; 31867; 22411]%N ++ runes_of_ascii "` , int64 u ,
+A//x
+T
+    `say ""hi""`
+, }
+")).
+Eval vm_compute in ("<<<M1326>>>" ++ check (runes_of_ascii "packet Logon {
+    string user,
+}
+root packet Frame {
+    u8 K,
+    match K as Body {
+        1 : Logon,
+        2 : Logout,
+    },
+    Tail,
 }
 packet Logout {
     u16 reason,
 }
-root packet Frame {
-    u8 Kind,
-    u8 Kind2,
-    match Kind as Body {
-        1 : Logon,
-        [2, 3, 4] : Logout,
-        100 : Logon,
-    },
-    match Kind2 as Trailer {
-        0 : Logout,
-    },
+packet Tail {
+    u32 crc,
 }
 ")).
-Eval vm_compute in ("<<<M1314>>>" ++ check (runes_of_ascii "packet MDSnapshotZZ {
-    u8 a,
-}
-packet OrderACK {
-    u16 b,
-}
-packet HTTPServerInfo {
-    string s,
-}
-root packet FIXMsg {
-    u8 KType,
-    MDSnapshotZZ,
-    repeat OrderACK,
-    match KType as Body {
-        1 : HTTPServerInfo,
-        2 : OrderACK,
-    },
-}
+Eval vm_compute in ("<<<M186>>>" ++ check (runes_of_ascii "root packet packetx	{	char[ 1 ]chars @calculatedFrom(
+""packet"" ) `say ""hi""` ,} options
+    // trailing space 
+    { asx
+    // a // b
+    = 65535 u = float64 repeatCount  =""\" ++ [233]%N ++ runes_of_ascii """}
 ")).
-Eval vm_compute in ("<<<M1313>>>" ++ check (runes_of_ascii "options	{ FixedStringPadChar
-=
-
-'0';  }packet
-Q
-{ zchar[4  ]
-
-z
-	, @rightPad  ('\x00'  )
-
-    char[ 
-3
-]
-n , char[
-    5 ]  d,
-}
-
-    root
-packet
-R
-
+Eval vm_compute in ("<<<M1196>>>" ++ check (runes_of_ascii "// top
+packet // c0a
+  // c0b
+body
+    // c1
+{ i32 // c3
+f32a
+    // c4
+`{ , }` // c5a
+  // c5b
+, }
+    // c7
+options // c8a
+  // c8b
+{ // c9
+} // c10a
+  // c10b
+")).
+Eval vm_compute in ("<<<M1401>>>" ++ check (runes_of_ascii "
+packet A
 {
+match
+	k
+	as
 
-    Q 
-, zchar[8 
-]top
+    n
 
-    ,	repeat zchar[	2
-]
-	zs
-
-    , 
-}")).
-Eval vm_compute in ("<<<M1868>>>" ++ check (runes_of_ascii "packet
-
-    Logon
-{ string user
+    {[
+	""a""
+	,
+22
+    ,
+    ""c c"" ,  4 
+,
+""e""
 
     ,
-}
-root 
-packet
-	Frame {
-u8
-K	,	match
-
-K
-as
-	Body
-	{1
-: Logon
+    66
 ,
-    2  :Logout  ,  }  ,
-	Tail , }
 
-packet 
-Logout{ 
-u16 
-reason
-,}
-packet
-Tail
+    ""g""  ,
 
-{
-	u32 crc
-, }
-")).
-Eval vm_compute in ("<<<M1440>>>" ++ check (runes_of_ascii "packet A {
-    match k as n {
-        ""\
-        "" : B,
-        [""\
-        "", 1] : C,
-        [
-            1, 2, 3, 4, 5,
-            ""\
-            ""
-        ] : D,
-    },
-}")).
-Eval vm_compute in ("<<<M1750>>>" ++ check (runes_of_ascii "packet calculatedFrom {
-    uint8x {
-        body `line1
-                line2`,
-        string crc @lengthOf(uint8x),
-        char[] As @lengthOf(Pad),
-    },
-}")).
-Eval vm_compute in ("<<<M528>>>" ++ check (runes_of_ascii "packet uint8x
+8
+
+,
+""i"",  10  ]
+
+:
+B 2	:
+C } ,
+	}")).
+Eval vm_compute in ("<<<M456>>>" ++ check (runes_of_ascii "packet uint8x
 { match pack
     as msg_type	{
     0123456789 :	float
 }
 ,
-} packet //	t
+} } packet //	t
 a1
     { } options {packetx
-    = '\x00'	; u128= ""a	b""  packet }
+    = '\x00'	; u128= ""a	b""  ; }
 ")).
-Eval vm_compute in ("<<<M488>>>" ++ check (runes_of_ascii "packet uint8x
+Eval vm_compute in ("<<<M393>>>" ++ check (runes_of_ascii "uint8x packet
 { match pack
-    as msg_type	{
-    0123456789 :	float
-}
-,
-} packet //	t
-a1
-    { } options i8 packetx
-    = '\x00'	; u128= ""a	b""  ; }
-")).
-Eval vm_compute in ("<<<M412>>>" ++ check (runes_of_ascii "packet uint8x
-{ match as
-    pack msg_type	{
-    0123456789 :	float
-}
-,
-} packet //	t
-a1
-    { } options {packetx
-    = '\x00'	; u128= ""a	b""  ; }
-")).
-Eval vm_compute in ("<<<M400>>>" ++ check (runes_of_ascii "packet uint8x
- match pack
     as msg_type	{
     0123456789 :	float
 }
@@ -996,186 +808,202 @@ a1
     { } options {packetx
     = '\x00'	; u128= ""a	b""  ; }
 ")).
-Eval vm_compute in ("<<<M1464>>>" ++ check (runes_of_ascii "
-MetaData 
-leftPad { chars 
-MetaDataX  ,
-	} 
-packet
-repeatCount
-
-    { char[ 255 ] 
-
-    // c
-    uint8x
-	`" ++ [233]%N ++ runes_of_ascii "`  ,
-} MetaData pack
-	{As Foo ,
-    }")).
-Eval vm_compute in ("<<<M500>>>" ++ check (runes_of_ascii "packet uint8x
-{ match pack
-    as msg_type	{
-    0123456789 :	float
-}
-,
-} packet //	t
-a1
-    { } options {packetx
-    = 	; u128= ""a	b""  ; }
-")).
-Eval vm_compute in ("<<<M420>>>" ++ check (runes_of_ascii "packet uint8x
-{ match pack
-    as 	{
-    0123456789 :	float
-}
-,
-} packet //	t
-a1
-    { } options {packetx
-    = '\x00'	; u128= ""a	b""  ; }
-")).
-Eval vm_compute in ("<<<M658>>>" ++ check (runes_of_ascii "// @lengthOf(
- i8i8 { u128 o , }
+Eval vm_compute in ("<<<M673>>>" ++ check (runes_of_ascii "// @lengthOf(
+packet i8i8 { u128 o , }
 options { MetaDataX = true;
-    BodyLength =""packet"" x_y_z= 007
+    BodyLength =""packet"" x_y_z float64 007
 crc //x
 = ""abc"" ;
     msg_type =
 i16 }")).
-Eval vm_compute in ("<<<M144>>>" ++ check (runes_of_ascii "  MetaData falsey {o i8i8
-,char[]
-pack  ,
-float32 lengthOf , len //x
-BodyLength, BodyLength o
-, stringy  u128	`crlf
-line` , } 	 ")).
-Eval vm_compute in ("<<<M1947>>>" ++ check (runes_of_ascii "
-packet
-uint8x
-	{match  pack
-    as 
-msg_type {
-
-    0123456789
-
-:
-    float
-
-    } ,  }
-    packet 	 //	t
-    	a1{
-
-}")).
-Eval vm_compute in ("<<<M1149>>>" ++ check (runes_of_ascii "MetaData leftPad { chars // c
-MetaDataX , } packet repeatCount { char[ 255 ] uint8x `" ++ [233]%N ++ runes_of_ascii "` , } MetaData pack { As Foo , }")).
-Eval vm_compute in ("<<<M1181>>>" ++ check (runes_of_ascii "MetaData leftPad { chars MetaDataX , } packet repeatCount { char[ 255 ] uint8x `" ++ [233]%N ++ runes_of_ascii "` , } MetaData pack { // c
-As Foo , }")).
-Eval vm_compute in ("<<<M1723>>>" ++ check (runes_of_ascii "packet
-    A 
-{ match
-
-    k  as  n 
-{
-	[1,	22
-, ""c c"" ,4,
-    5  ]  :
-
-    B
-
-    ,
-2
-
-    :	C }
-, }
-
+Eval vm_compute in ("<<<M408>>>" ++ check (runes_of_ascii "packet uint8x
+{ i8 pack
+    as msg_type	{
+    0123456789 :	float
+}
+,
+} packet //	t
+a1
+    { } options {packetx
+    = '\x00'	; u128= ""a	b""  ; }
 ")).
-Eval vm_compute in ("<<<M949>>>" ++ check (runes_of_ascii "packet A {
-    u16 len @lengthOf(body) `x
-`,
-    u32 crc @calculatedFrom(""CRC32"") `x
-`,
+Eval vm_compute in ("<<<M391>>>" ++ check (runes_of_ascii " uint8x
+{ match pack
+    as msg_type	{
+    0123456789 :	float
+}
+,
+} packet //	t
+a1
+    { } options {packetx
+    = '\x00'	; u128= ""a	b""  ; }
+")).
+Eval vm_compute in ("<<<M1491>>>" ++ check (runes_of_ascii "
+MetaData
+leftPad{
+
+    chars 
+MetaDataX,}packet
+repeatCount
+
+{ char[
+255
+    ]	uint8x `" ++ [233]%N ++ runes_of_ascii "`
+,
+    } 
+MetaData	pack
+    {
+As Foo 
+, }  // c
+")).
+Eval vm_compute in ("<<<M329>>>" ++ check (runes_of_ascii "  packet calculatedFrom
+{ uint8x {body `line1
+line2`
+, string crc
+@lengthOf(uint8x// " ++ [128512]%N ++ runes_of_ascii " emoji
+) , char[]As@lengthOf(	Pad )
+    , } , }
+")).
+Eval vm_compute in ("<<<M1802>>>" ++ check (runes_of_ascii "// top
+root packet P {
+    // c3
+    u8 s_u8,// c6
+    repeat u8 r_u8,
+    // c10
+    u16 b_len,// c13a
+    // c13b
+}// c14a
+// c14b")).
+Eval vm_compute in ("<<<M937>>>" ++ check (runes_of_ascii "packet A {
+    u16 len @lengthOf(body) `a
+    b
+  c`,
+    u32 crc @calculatedFrom(""CRC32"") `a
+    b
+  c`,
     string body,
 }")).
-Eval vm_compute in ("<<<M920>>>" ++ check (runes_of_ascii "packet A {
-    Inner {
-        u8 x `a
-b`,
-        Deep {
-            u8 y `a
-b`,
-        },
-    },
-}")).
-Eval vm_compute in ("<<<M1954>>>" ++ check (runes_of_ascii "packet
+Eval vm_compute in ("<<<M1144>>>" ++ check (runes_of_ascii "MetaData
+// c
+leftPad { chars MetaDataX , } packet repeatCount { char[ 255 ] uint8x `" ++ [233]%N ++ runes_of_ascii "` , } MetaData pack { As Foo , }")).
+Eval vm_compute in ("<<<M1176>>>" ++ check (runes_of_ascii "MetaData leftPad { chars MetaDataX , } packet repeatCount { char[ 255 ] uint8x `" ++ [233]%N ++ runes_of_ascii "` , }
+// c
+MetaData pack { As Foo , }")).
+Eval vm_compute in ("<<<M1579>>>" ++ check (runes_of_ascii "
 
-    A 
-{ 
-u16 // a
+  packet
+A
 
-len // b
-@lengthOf(// c
-  	body  // d
+{match
+k as
 
-)	// e
-	`d`  // f
-	  , }
+    n 
+{
+
+    [ 1
+,
+
+    ""bb""	,
+
+007 , ""d"" ,
+
+5,
+""f""
+]  : B
+    2 :
+	C }
+,  }
 ")).
-Eval vm_compute in ("<<<M630>>>" ++ check (runes_of_ascii "
+Eval vm_compute in ("<<<M902>>>" ++ check (runes_of_ascii "packet A {
+  match k as n {
+    [""a"", ""bb"", 007, ""d"", ""e"", 66, ""g"", ""h"", 9, ""j"", ""k""] : B
+    2 : C
+  },
+}")).
+Eval vm_compute in ("<<<M913>>>" ++ check (runes_of_ascii "packet A {
+  match k as n {
+    [1, 22, ""c c"", 4, 5, ""f"", 7, 8, ""i"", 10, 11, ""l""] : B
+    2 : C
+  },
+}")).
+Eval vm_compute in ("<<<M900>>>" ++ check (runes_of_ascii "packet A {
+  match k as n {
+    [1, 22, ""c c"", 4, 5, ""f"", 7, 8, ""i"", 10, 11] : B
+    2 : C
+  },
+}")).
+Eval vm_compute in ("<<<M558>>>" ++ check (runes_of_ascii "
 packet
-    a@tagsx {match u128 as lengthOf
+    asx asx {match u128 as lengthOf
 {
 //	t
 // `tick` ""quote"" 'q'
 255 : x ,
     } ,	}")).
-Eval vm_compute in ("<<<M870>>>" ++ check (runes_of_ascii "packet A {
+Eval vm_compute in ("<<<M623>>>" ++ check (runes_of_ascii "
+packet
+    asx {match u128 as lengthOf
+{
+//	t
+// `tick` ""quote"" 'q'
+255 : x ,
+    } ,	} }")).
+Eval vm_compute in ("<<<M584>>>" ++ check (runes_of_ascii "
+packet
+    asx {match u128 as {
+lengthOf
+//	t
+// `tick` ""quote"" 'q'
+255 : x ,
+    } ,	}")).
+Eval vm_compute in ("<<<M625>>>" ++ check (runes_of_ascii "
+packet
+    asx {match u128 as lengthOf
+{
+//	t
+// `tick` ""quote"" 'q'
+255 : x ,
+    } ,")).
+Eval vm_compute in ("<<<M843>>>" ++ check (runes_of_ascii "packet A {
   match k as n {
-    [1, ""bb"", 007, ""d"", 5, ""f"", 7, ""h"", 9] : B
+    [1, ""bb"", 007, ""d"", 5, ""f"", 7] : B,
     2 : C
   },
 }")).
-Eval vm_compute in ("<<<M849>>>" ++ check (runes_of_ascii "packet A {
+Eval vm_compute in ("<<<M831>>>" ++ check (runes_of_ascii "packet A {
   match k as n {
-    [""a"", ""bb"", 007, ""d"", ""e"", 66, ""g""] : B,
+    [1, ""bb"", 007, ""d"", 5, ""f""] : B
     2 : C
   },
 }")).
-Eval vm_compute in ("<<<M771>>>" ++ check (runes_of_ascii "true @tag( root : repeat @calculatedFrom( match f64 int32 ] { zchar[ packet @lengthOf(")).
-Eval vm_compute in ("<<<M844>>>" ++ check (runes_of_ascii "packet A {
-  match k as n {
-    [1, ""bb"", 007, ""d"", 5, ""f"", 7] : B
-    2 : C
-  },
-}")).
-Eval vm_compute in ("<<<M972>>>" ++ check (runes_of_ascii "packet A {
-    u32 crc @calculatedFrom(""\
-""),
-    @calculatedFrom(""\
-"") u8 y,
-}")).
-Eval vm_compute in ("<<<M1744>>>" ++ check (runes_of_ascii "  packet
-A  {  }
+Eval vm_compute in ("<<<M1568>>>" ++ check (runes_of_ascii "root
 
-    packet B
-{ 
-}
-MetaData M
-    { 
-} options
-    {
-}
-")).
-Eval vm_compute in ("<<<M1879>>>" ++ check (runes_of_ascii "root
 packet
 
-    x {
-    roots
+    P
+	{ repeat
+string
 
-@calculatedFrom( ""a\""b"" )
-,
+    ss
+, repeat u16
+
+ns,
+
     }
+
 ")).
-Eval vm_compute in ("<<<M924>>>" ++ check (runes_of_ascii "packet A {
+Eval vm_compute in ("<<<M91>>>" ++ check (runes_of_ascii "packet
+roots{ }	MetaData
+    metadata{
+asx matchKey ,
+uint64
+rootA , }")).
+Eval vm_compute in ("<<<M1583>>>" ++ check (runes_of_ascii "packet u {
+    @tag(10)
+    tag @lengthOf(A),
+    repeat options1,
+}")).
+Eval vm_compute in ("<<<M918>>>" ++ check (runes_of_ascii "packet A {
     B b `a
 b`,
     B `a
@@ -1183,62 +1011,56 @@ b`,
     repeat B bs `a
 b`,
 }")).
-Eval vm_compute in ("<<<M189>>>" ++ check (runes_of_ascii "
+Eval vm_compute in ("<<<M1091>>>" ++ check (runes_of_ascii "packet A { @leftPad() char[4] x, @rightPad( ) zchar[2] y, }")).
+Eval vm_compute in ("<<<M627>>>" ++ check (runes_of_ascii "
 packet
-i64_ { @tag( 0123456789 ) repeat u16 stringy
-,
-    }")).
-Eval vm_compute in ("<<<M773>>>" ++ check (runes_of_ascii "packet A {
-  match k as n {
-    [1] : B,
-    2 : C
-  },
-}")).
-Eval vm_compute in ("<<<M1220>>>" ++ check (runes_of_ascii "packet body { i32 f32a `{ , }` , } options { }
+    asx {match u128 as lengthOf
+{
+//	t
+// `t")).
+Eval vm_compute in ("<<<M1216>>>" ++ check (runes_of_ascii "packet body { i32 f32a `{ , }` , } options
 // c
-")).
-Eval vm_compute in ("<<<M1432>>>" ++ check (runes_of_ascii "options {
-    a = ""x\
-    y"";
-    b = ""x\
-    y""
-}")).
-Eval vm_compute in ("<<<M284>>>" ++ check (runes_of_ascii "
-options{ trueish=
-'0' //	t
-;a1 = u64
-; }")).
-Eval vm_compute in ("<<<M1518>>>" ++ check (runes_of_ascii "root packet A {
+{ }")).
+Eval vm_compute in ("<<<M921>>>" ++ check (runes_of_ascii "MetaData M {
     u8 x `a
-        b`,
+b`,
+    T t `a
+b`,
 }")).
-Eval vm_compute in ("<<<M50>>>" ++ check (runes_of_ascii "options {
-    Packet =  char[]  }
+Eval vm_compute in ("<<<M1511>>>" ++ check (runes_of_ascii "
+
+  MetaData repeatCount
+
+    { }
+//	t
 ")).
-Eval vm_compute in ("<<<M1943>>>" ++ check (runes_of_ascii "packet A {
-    u8 x `d" ++ [8233]%N ++ runes_of_ascii "`,// c" ++ [8233]%N ++ runes_of_ascii "
+Eval vm_compute in ("<<<M1826>>>" ++ check (runes_of_ascii "packet A {
+    u8 x,// c
+    u8 y,
 }")).
-Eval vm_compute in ("<<<M1076>>>" ++ check (runes_of_ascii "MetaData M {
-}// c
-packet A {}")).
-Eval vm_compute in ("<<<M1880>>>" ++ check (runes_of_ascii "
-// c
-  	MetaData	u
-{ } ")).
-Eval vm_compute in ("<<<M238>>>" ++ check (runes_of_ascii "root packet chars
-{}
-")).
-Eval vm_compute in ("<<<M1041>>>" ++ check (runes_of_ascii "packet A {
+Eval vm_compute in ("<<<M1063>>>" ++ check (runes_of_ascii "packet A {
+ u8 x `d x`, // c x
+}")).
+Eval vm_compute in ("<<<M1013>>>" ++ check (runes_of_ascii "packet A {
+ u8 x `d" ++ [8232]%N ++ runes_of_ascii "`, // c" ++ [8232]%N ++ runes_of_ascii "
+}")).
+Eval vm_compute in ("<<<M1653>>>" ++ check (runes_of_ascii "
+
+  packet
+    falsey {
+
 }
-// c 	")).
-Eval vm_compute in ("<<<M1007>>>" ++ check (runes_of_ascii "// c" ++ [8202]%N ++ runes_of_ascii "
+")).
+Eval vm_compute in ("<<<M414>>>" ++ check (runes_of_ascii "packet uint8x
+{ match")).
+Eval vm_compute in ("<<<M115>>>" ++ check (runes_of_ascii "MetaData roots{ } 	 ")).
+Eval vm_compute in ("<<<M982>>>" ++ check (runes_of_ascii "// c" ++ [12288]%N ++ runes_of_ascii "
 packet A {
 }")).
-Eval vm_compute in ("<<<M974>>>" ++ check (runes_of_ascii "packet A {
-}// c ")).
-Eval vm_compute in ("<<<M1438>>>" ++ check (runes_of_ascii "packet Logon{	}
-")).
-Eval vm_compute in ("<<<M732>>>" ++ check (runes_of_ascii "// a
-// b
-")).
-Eval vm_compute in ("<<<M1055>>>" ++ check (runes_of_ascii "// c" ++ [6158]%N)).
+Eval vm_compute in ("<<<M1083>>>" ++ check (runes_of_ascii "packet A { // a
+ }")).
+Eval vm_compute in ("<<<M1230>>>" ++ check (runes_of_ascii "packet x { // c
+}")).
+Eval vm_compute in ("<<<M1628>>>" ++ check (runes_of_ascii "packet A {
+}")).
+Eval vm_compute in ("<<<M1030>>>" ++ check (runes_of_ascii "// c" ++ [11]%N)).
